@@ -12,7 +12,9 @@ from common import hx, unhx
 
 GROUP = "geometry"
 FILES = ["gen/Gen_geometry.v", "Model_density.v", "Proofs_geometry.v", "Proofs_density.v",
-         "Model_poles_axes.v", "Proofs_poles_axes.v", "Entry_geometry.v", "Extract_geometry.v"]
+         "Model_poles_axes.v", "Proofs_poles_axes.v", "Entry_geometry.v", "Extract_geometry.v",
+         # tie T for point_density (five kernels, g = 2, 3; n = 1, 2) and for poles on 2 / 3 orientations
+         "gen/Gen_density.v", "Inst_density.v", "Inst_density_kamb.v", "Inst_density_exp.v", "Inst_density_inv.v", "Inst_density_all.v"]
 PROP = "Properties/C20.v"
 AXES = ("xy", "xz", "yx", "yz", "zx", "zy")
 KERNELS = ("kamb_count", "schmidt_count", "exponential_kamb", "linear_inverse_kamb", "square_inverse_kamb")
@@ -1051,12 +1053,18 @@ def shrink(c):
 
 
 def run(chk):
-    ok, br = proofs.prove(chk, FILES, PROP, groups=(GROUP,), gen_modules=("geometry",))
+    ok, br = proofs.prove(chk, FILES, PROP, groups=(GROUP,), gen_modules=("geometry", "density"))
     chk.cov["trusted_base"] = common.TRUSTED_COMMON + [
         "GeoProxy in translator/specs_geometry.py: symbolic meaning of np.atleast_1d/.astype(float), array arctan2/logical_and, "
         "np.tensordot((N,3,3),(3,),axes=(2,0)), scipy.linalg.norm(axis=1) and of the numpy.ma idiom of lambert_equal_area "
         "(masked_where / domained true_divide and sqrt / fill_value / filled) -- checked against the implementation by this differential run",
-        "hand-written Model_density.v (point_density, five kernels, poles_all over the generated one-orientation poles); tie H = this differential run",
+        "hand-written Model_density.v (point_density, five kernels, poles_all over the generated one-orientation poles); tie T at grid sizes 2, 3 with 1, 2 data vectors "
+        "(gen/Gen_density.v regenerated from pydrex.stats.point_density and its kernels on every run, proved equal to the model: C20_generated_density_is_model, C20_generated_poles_batch_is_map) "
+        "+ tie H = this differential run for all sizes",
+        "DensityProxy in translator/specs_density.py (subclass of GeoProxy): np.mgrid[a:b:g*1j] = i*((b-a)/(g-1)) + a; np.arcsin = pi/2 - arccos; np.dot((n,3),(3,)) left to right; array <op> scalar = a mask, mask.astype(float) = "
+        "per-element 0/1 expression, a[mask] = one fork per element, a[mask] = scalar per-element expression; ndarray.sum = left fold from 0, .mean = sum / length, both NumPy scalars whose division never raises; array /= scalar never "
+        "raises; Python scalar divisions in the kernels fork on a zero denominator; _geo.to_cartesian / lambert_equal_area on arrays = one call of the generated scalar definition per element; arithmetic is kept literal "
+        "(no 0+x, 1*x, x/1 simplification) so that generated text and model have the same shape",
         "np.arcsin modelled as pi/2 - arccos; np.sum/np.mean modelled as left-to-right sums; array division by zero is an error in the model and nan in NumPy",
         "hand-written Model_poles_axes.v (str.lower on ASCII, set('xyz') - set(s) with set.pop() as the oracle parameter `pick`, the two dictionary "
         "look-ups, columns by index over the generated k_poles_xy); tie H = this differential run over all 24 spellings, illegal strings and input "
